@@ -517,9 +517,11 @@ def run(ctx):
         houts = ctx.driver.run([{"op": "domHyps", "s": ctx.driver.add_schema(i)} for i in hyp_infos])
         for i, o in zip(hyp_infos, houts):
             h = o.get("ok") or {}
-            ctx.count("theorem_hypotheses_hold" if h.get("det") and h.get("textStable") else "theorem_hypotheses_fail:" + i.name)
-            if not (h.get("det") and h.get("textStable")):
-                ctx.notes.append(f"schema {i.name}: Det={h.get('det')} TextStable={h.get('textStable')} — the placement theorems do not apply to it")
+            allh = h.get("det") and h.get("textStable") and h.get("leafOk")
+            ctx.count("theorem_hypotheses_hold" if allh else "theorem_hypotheses_fail:" + i.name)
+            if not allh:
+                ctx.notes.append(f"schema {i.name}: Det={h.get('det')} TextStable={h.get('textStable')} LeafOk={h.get('leafOk')} — "
+                                 "placement_finish_valid does not apply to it (placement_finish_marks does; placement_match_coherent needs Det)")
         outs = ctx.driver.run(preqs)
         for (replay, info, pc, kind), out in zip(pmetas, outs):
             ctx.count("model_requests")
